@@ -12,8 +12,9 @@ EXPLANATION = (
     "states; (apply) FilterEntry::feed and Not::feed call input.feed() exactly once, apply their verdict to filtrate and "
     "residue alike, map File to Node and Tree to Tree, and the substituent handed to the verdict is the entry in every "
     "state; (drain) filtrate() returns the first filtrate and consumes exactly the residue before it.  Decided by "
-    "evaluating the THIR of each function on every cell of the finite domains; stacks on real trees are not executed.")
-RULES = "C16.lattice (EFFECT), C16.noreturn (WHO+TABLE), C16.apply (EFFECT+SIBLING), C16.drain (EFFECT)"
+    "evaluating the THIR of each function on every cell of the finite domains; stacks on real trees are not executed.  "
+    "(next) Iterator::next of the four separating filters returns filter::filtrate(self), asked once.")
+RULES = "C16.lattice (EFFECT), C16.noreturn (WHO+TABLE), C16.apply (EFFECT+SIBLING), C16.drain (EFFECT), C16.next (SIBLING: next() = filtrate of the combinator\'s own feed)"
 
 
 def run(ctx):
@@ -30,6 +31,7 @@ def run(ctx):
     rule_mapping(F, R)
     rule_substituent(F, R)
     rule_drain(F, R)
+    rule_next(F, R)
 
 
 def rule_noreturn(F, R):
@@ -171,3 +173,27 @@ def rule_drain(F, R):
                     fail_msg="filtrate() on feed sequence %s returns %r after %d feed() calls; expected %s after %d: the "
                              "iterator must yield the first filtrate and skip exactly the residue before it" % (
                                  seq, c.result, feeds, want, nfeeds))
+
+
+def rule_next(F, R):
+    """C16.next (SIBLING): the item a combinator yields is the next filtrate of its own feed: `Iterator::next` of every
+    separating filter (the two generic adaptors of the filter module, `filter_entry` and `not`) returns what
+    filter::filtrate gives for that same combinator, asked exactly once (C16.drain decides filtrate itself).  A `next`
+    that reads its input's items directly would bypass the layer's verdict."""
+    its = [it for it in F.items.values() if it.name == "next" and it.impl_trait == "std::iter::Iterator" and
+           it.impl_adt in ("filter::FilterTreeBySubstituent", "filter::FilterMapTree", "walk::FilterEntry", "walk::Not")]
+    R.floor("C16.next", "Iterator::next impls of separating filters", len(its), 4)
+    for it in sorted(its, key=lambda i: i.key):
+        calls = []
+
+        def filtrate(I, a, fn, e):
+            calls.append(repr(strip(a[0])))
+            return Sym("the-next-filtrate")
+        I = W.new_interp(F, {"filter::filtrate": filtrate})
+        me = Sym("self-combinator")
+        cases = I.explore(lambda: (calls.clear(), I.call_item(it, [Ref(Place(Cell(me)))], inst=False))[1])
+        good = len(cases) == 1 and isinstance(strip(cases[0].result), Sym) and strip(cases[0].result).name == "the-next-filtrate" and \
+            len(calls) == 1 and "self-combinator" in calls[0]
+        R.check(good, "C16.next", it.impl_adt.split("::")[-1], "next() = filter::filtrate(self), once", it.where(),
+                fail_msg="%s::next returns %r after %d call(s) of filter::filtrate (%s): the items of the combinator are not the filtrate of its own feed" % (
+                    it.impl_adt, [strip(c.result) for c in cases][:2], len(calls), calls[:2]))
